@@ -505,10 +505,16 @@ class SubmitSm(Trackable, SmppMessage):
 
         def get_octet_string(count: int) -> str:
             nonlocal index
-            octet_string: str = pdu[index : index + count].decode('ascii')
-            if tag in (ADDITIONAL_STATUS_INFO_TEXT, RECEIPTED_MESSAGE_ID) and octet_string.endswith(chr(0)):
-                # C-Octet String params are null-terminated; a final zero octet of an Octet String is data
-                octet_string = octet_string[:-1]
+            octet_string: str
+            if tag in (ADDITIONAL_STATUS_INFO_TEXT, RECEIPTED_MESSAGE_ID):
+                # C-Octet String params are ASCII and null-terminated
+                octet_string = pdu[index : index + count].decode('ascii')
+                if octet_string.endswith(chr(0)):
+                    octet_string = octet_string[:-1]
+            else:
+                # An Octet String may hold any octets (network_error_code, subaddresses...): one
+                # character per octet; a final zero octet is data
+                octet_string = pdu[index : index + count].decode('latin_1')
             index += count
             return octet_string
 
